@@ -785,7 +785,7 @@ def run_imul(ctx, xcls, tier, seed):
                     cases.append(('n=1/x=%s@%s' % (gn, sn), gslots(int(gn[1:]), 1, s), 'ladder', s, False))
         for ln, xs_, grid, xmag, triv in cases:
             cid = 'C20/imul/I=%s/%s/%s' % (an, CODE[xcls], ln)
-            if not ctx.want(cid):
+            if not (ctx.want(cid) or ctx.want(cid + '/reflected')):
                 continue
             ctx.case(cid, trivial=triv)
             P = dict(P0, n=len(xs_), multi=int(len(xs_) > 1), grid=grid, mag=max(amag, xmag), Imag=amag, xmag=xmag)
@@ -797,6 +797,16 @@ def run_imul(ctx, xcls, tier, seed):
             tol = 0.0 if aex else TOL * Rmax * amax(xs_)
             verdict(ctx, cid, site, P, ok, got, (rescls,), [R @ v for v in xs_], tol,
                     'SpatialInertia * %s(%d)' % (xcls, len(xs_)))
+            # the reflected form documented by SpatialInertia.__rmul__ (x * I): the same product, the same class of result
+            cidr = cid + '/reflected'
+            if ctx.want(cidr):
+                ctx.case(cidr, trivial=triv)
+                A2, _ = mk_inertia(ctx, cidr, am, ar, aJ, dict(P, op='ctor'), base_tol)
+                x2 = build(ctx, cidr, xcls, xs_, P)
+                if A2 is not None and x2 is not None:
+                    ok, got = call(operator.mul, x2, A2)
+                    verdict(ctx, cidr, 'SpatialInertia.__rmul__', dict(P, op='rmul'), ok, got, (rescls,), [R @ v for v in xs_], tol,
+                            '%s(%d) * SpatialInertia' % (xcls, len(xs_)))
 
 
 # --------------------------------------------------------------------------- SE3 * spatial vector
